@@ -155,7 +155,9 @@ def is_balanced_html(text: str) -> bool:
 
 def wrap_html_tags(text: str, before: str, after: str):
     """Wrap any html tags in text with before and after strings."""
-    return re.sub(r"(<[^>]+>)", rf"{before}\1{after}", text)
+    # a function, not a template: before/after are inserted literally (in a
+    # template a backslash in either one would be read as a group reference)
+    return re.sub(r"(<[^>]+>)", lambda m: f"{before}{m[1]}{after}", text)
 
 
 def hyperscan_match(regexes, text):
